@@ -26,13 +26,13 @@ Devs == {"numpydoc_embedded_unparsable",       \* wild : class/pydantic/function
          "class_dict_no_default_raises",       \* exact: class/pydantic emit of a `dict` parameter without default raises TypeError
          "str_default_with_dot_truncated",     \* wild : emit_default_doc + a string default containing a full stop: cut at it when read back from the docstring (function: SyntaxError)
          "empty_str_default_residue",          \* exact: emit_default_doc + empty-string default leaves a dangling 'Defaults to' in the description
-         "function_none_default_as_str",       \* wild (entry): function + emit_default_doc: a None default comes back as the string '(None)' (annotation Optional[str]); not every such entry is affected
+                                               \* (repaired, 0fc255c: function + emit_default_doc: a None default came back as the string '(None)', annotation Optional[str])
          "function_neg_default_nonscalar_ast", \* wild (entry): negative default under a non-scalar annotation comes back as an AST node
          "argparse_required_gets_zero_default",\* exact: argparse gives a default-less int/float/str/Literal/List parameter its zero value
          "argparse_none_default_dropped",      \* exact: argparse drops a None default
          "argparse_bool_no_default_optional",  \* exact: argparse turns a default-less bool into Optional[bool]
          "return_literal_default_raises",      \* exact: argparse emit of a return entry whose default is a non-string literal raises TypeError (the function emitter did too: repaired)
-         "function_return_default_mangled",    \* wild : function: a return default given as a code-quoted expression loses the return type; a None default comes back as the string '(None)'
+         "function_return_default_mangled",    \* wild : function: a return default given as a code-quoted expression loses the return type (None: repaired with 0fc255c)
          "argparse_return_expr_default_requoted", \* exact: argparse (ReST): a code-quoted return default (expression, None) comes back as the repr of that string (quotes inside the string)
          "argparse_gn_return_default_raises",  \* exact: argparse with a Google / NumPy docstring and a return default: the parser raises (KeyError 'typ' / TypeError)
          "argparse_type_collapsed"}            \* exact: argparse collapses Union/dotted/dict types (Union[int,str]->int|str, np.ndarray->str, dict->Optional[dict]=None, Optional[dict]->Optional[str])
@@ -48,9 +48,7 @@ AsBuiltP(en, cfg, p) ==
       r1 == IF on("empty_str_default_residue") /\ Embedded(cfg) /\ cfg.edd /\ p.def = "str_empty"
             THEN <<[e0 EXCEPT !.doc = "residue"], {"empty_str_default_residue"}>> ELSE <<e0, {}>>
       r1b == r1
-      r2 == IF on("function_none_default_as_str") /\ cfg.fmt = "function" /\ cfg.edd /\ p.def = "None"
-            THEN <<[r1b[1] EXCEPT !.wild = TRUE],
-                   r1b[2] \cup {"function_none_default_as_str"}>> ELSE r1b
+      r2 == r1b
       r3 == IF on("function_neg_default_nonscalar_ast") /\ cfg.fmt = "function" /\ p.typ = "Union_int_str" /\ p.def = "int_neg"
             THEN <<[r2[1] EXCEPT !.wild = TRUE], r2[2] \cup {"function_neg_default_nonscalar_ast"}>> ELSE r2
       \* argparse
@@ -82,7 +80,7 @@ AsBuilt(en, cfg, i) ==
                    /\ \E k \in 1..n : i.params[k].typ = "dict" /\ i.params[k].def = "absent"
       hasRetDef == i.ret # NoRet /\ i.ret.def # "absent"
       retLit == "return_literal_default_raises" \in en /\ cfg.fmt = "argparse" /\ hasRetDef /\ i.ret.def = "int_pos"
-      fnRet == "function_return_default_mangled" \in en /\ cfg.fmt = "function" /\ hasRetDef /\ i.ret.def \in {"expr", "None"}
+      fnRet == "function_return_default_mangled" \in en /\ cfg.fmt = "function" /\ hasRetDef /\ i.ret.def \in {"expr"}
       apGn == "argparse_gn_return_default_raises" \in en /\ cfg.fmt = "argparse" /\ cfg.style \in {"google", "numpydoc"} /\ hasRetDef /\ ~retLit
       apRet == "argparse_return_expr_default_requoted" \in en /\ cfg.fmt = "argparse" /\ cfg.style = "rest" /\ hasRetDef /\ i.ret.def \in {"expr", "None"}
       r0 == NormR(cfg, i.ret)
